@@ -35,6 +35,7 @@ PY_TAGS = {"float", "int", "bool"}
 FLOAT_TAGS = ("float", "np.float64", "np.float32")
 INT_TAGS = ("int", "np.int64", "np.int32")
 BOOL_TAGS = ("bool", "np.bool_")
+_PYTAG = {"np.float64": "float", "np.float32": "float", "np.int64": "int", "np.int32": "int", "np.bool_": "bool"}
 
 
 # ---------------------------------------------------------------------------
@@ -63,6 +64,13 @@ class FL(SR):
 
     def __copy__(self):
         return self
+
+    def item(self):
+        if self.tag in PY_TAGS:
+            raise AttributeError("'%s' object has no attribute 'item'" % self.tag)
+        return self.retag(_PYTAG[self.tag])
+
+    tolist = item
 
     __hash__ = object.__hash__
 
@@ -112,6 +120,13 @@ class IL:
     def concrete(self):
         return isinstance(self.e, int)
 
+    def item(self):
+        if self.tag in PY_TAGS:
+            raise AttributeError("'%s' object has no attribute 'item'" % self.tag)
+        return self.retag(_PYTAG[self.tag])
+
+    tolist = item
+
     @staticmethod
     def _u(o):
         if isinstance(o, IL):
@@ -126,9 +141,10 @@ class IL:
         u = IL._u(o)
         if u is None:
             return NotImplemented
+        tag = self.tag if self.tag != "int" else (o.tag if isinstance(o, IL) else "int")  # numpy scalar (op) python int -> numpy scalar
         if isinstance(self.e, int) and isinstance(u, int):
-            return IL(pf(self.e, u))
-        return IL(f(self.e, u))
+            return IL(pf(self.e, u), tag)
+        return IL(f(self.e, u), tag)
 
     def __add__(self, o):
         return self._bin(o, lambda a, b: a + b, lambda a, b: a + b)
@@ -227,6 +243,34 @@ class BL:
         if isinstance(self.e, bool):
             return self.e
         return bool(S.ZBool(self.e))
+
+    def item(self):
+        if self.tag in PY_TAGS:
+            raise AttributeError("'%s' object has no attribute 'item'" % self.tag)
+        return self.retag(_PYTAG[self.tag])
+
+    tolist = item
+
+    def _cmp(self, o, neg):
+        if isinstance(o, BL):
+            u = o.e
+        elif isinstance(o, (bool, realnp.bool_)):
+            u = bool(o)
+        else:
+            return NotImplemented
+        if isinstance(self.e, bool) and isinstance(u, bool):
+            return (self.e != u) if neg else (self.e == u)
+        a = z3.BoolVal(self.e) if isinstance(self.e, bool) else self.e
+        b = z3.BoolVal(u) if isinstance(u, bool) else u
+        return S.ZBool(a != b) if neg else S.ZBool(a == b)
+
+    def __eq__(self, o):
+        r = self._cmp(o, False)
+        return False if r is NotImplemented else r
+
+    def __ne__(self, o):
+        r = self._cmp(o, True)
+        return True if r is NotImplemented else r
 
     __hash__ = object.__hash__
 
@@ -502,8 +546,21 @@ def _to_dtype(e, dt):
     return e
 
 
+def _np_scalar_class(name, real, pred):
+    return _LeafMeta(name, (), {"_name": "np." + name, "_check": staticmethod(lambda obj: isinstance(obj, real) or pred(obj))})
+
+
+_NPTAG = lambda obj: getattr(obj, "tag", "") if isinstance(obj, (FL, IL, BL)) else ""  # noqa: E731
+
+
 class CardNumpy(shim.SymNumpy):
     """numpy facade for dictlike / runcards / interpolation.XGrid on leaves."""
+
+    generic = _np_scalar_class("generic", realnp.generic, lambda o: _NPTAG(o).startswith("np."))
+    number = _np_scalar_class("number", realnp.number, lambda o: _NPTAG(o).startswith("np.") and not isinstance(o, BL))
+    floating = _np_scalar_class("floating", realnp.floating, lambda o: isinstance(o, FL) and o.tag.startswith("np."))
+    integer = _np_scalar_class("integer", realnp.integer, lambda o: isinstance(o, IL) and o.tag.startswith("np."))
+    bool_ = _np_scalar_class("bool_", realnp.bool_, lambda o: isinstance(o, BL) and o.tag.startswith("np."))
 
     def array(self, a, dtype=None, **k):
         if isinstance(a, SymNd):
@@ -569,6 +626,21 @@ class CardNumpy(shim.SymNumpy):
             return realnp.digitize(x, bins, right=right)
         if right:
             raise SymbolicEscape("digitize(right=True)")
+        bins = list(bins)
+
+        def le(a, b):
+            if isinstance(b, float) and math.isinf(b):
+                return b > 0
+            if isinstance(a, float) and math.isinf(a):
+                return a < 0
+            c = a <= b
+            return c if isinstance(c, bool) else bool(c)
+
+        if not all(le(a, b) for a, b in zip(bins, bins[1:])):
+            # numpy accepts monotonically decreasing bins too; that branch is not modelled
+            if all(le(b, a) for a, b in zip(bins, bins[1:])):
+                raise SymbolicEscape("digitize with decreasing bins")
+            raise ValueError("bins must be monotonically increasing or decreasing")
         i = 0
         for b in bins:
             if isinstance(b, float) and math.isinf(b):
@@ -690,18 +762,36 @@ class ConcMk:
 # ---------------------------------------------------------------------------
 # plain-data walk (what a safe YAML dumper accepts) -- symbolic and concrete
 # ---------------------------------------------------------------------------
-def nonplain(v, where="raw", parent="field"):
-    """list of (path, type tag, parent container kind) of everything that is not plain python data"""
+def user_dicts(x, acc=None):
+    """ids of the dict objects stored in dict-typed fields of x (raw_field hands them through untouched)"""
+    acc = set() if acc is None else acc
+    if isinstance(x, dict):
+        acc.add(id(x))
+        for v in x.values():
+            user_dicts(v, acc)
+    elif isinstance(x, (list, tuple)):
+        for v in x:
+            user_dicts(v, acc)
+    elif dataclasses.is_dataclass(x) and not isinstance(x, type):
+        for f in dataclasses.fields(x):
+            user_dicts(getattr(x, f.name), acc)
+    return acc
+
+
+def nonplain(v, where="raw", parent="field", udicts=()):
+    """list of (path, type tag, parent container kind) of everything that is not plain python data.  parent is
+    'field' for the value of a DictLike field (also of a nested DictLike), 'dict' inside a dict-typed field."""
     out = []
     if type(v) is dict:
+        kind = "dict" if id(v) in udicts or parent == "dict" else "field"
         for k, x in v.items():
             if type(k) is not str:
                 out.append((where, "key:" + type(k).__name__, "dict"))
-            out.extend(nonplain(x, "%s[%r]" % (where, k), "dict"))
+            out.extend(nonplain(x, "%s[%r]" % (where, k), kind, udicts))
         return out
     if type(v) in (list, tuple):
         for i, x in enumerate(v):
-            out.extend(nonplain(x, "%s[%d]" % (where, i), type(v).__name__))
+            out.extend(nonplain(x, "%s[%d]" % (where, i), type(v).__name__, udicts))
         return out
     if isinstance(v, (FL, IL, BL, NanLeaf)):
         if v.tag not in PY_TAGS:
@@ -958,3 +1048,120 @@ def sym_io_modules():
     rc.nan = NAN
     mt.np = cnp
     return dl, ip, rc, mt, cnp
+
+
+# ---------------------------------------------------------------------------
+# cheap pre-replay: a child forked from the worker BEFORE any module is patched (eko already imported, nothing
+# rebound) answers replay requests; a reproduced counterexample is then handed to the framework with the
+# standard replay script, which the framework confirms once more in a brand-new interpreter.
+# ---------------------------------------------------------------------------
+import hashlib  # noqa: E402
+import os  # noqa: E402
+import pickle  # noqa: E402
+import struct  # noqa: E402
+import sys  # noqa: E402
+import traceback  # noqa: E402
+
+
+class ReplayServer:
+    def __init__(self, modname):
+        assert not _INSTALLED, "replay server must be forked before the modules are patched"
+        r1, w1 = os.pipe()
+        r2, w2 = os.pipe()
+        pid = os.fork()
+        if pid == 0:
+            os.close(w1)
+            os.close(r2)
+            try:
+                mod = modname if not isinstance(modname, str) else (sys.modules.get(modname) or __import__(modname, fromlist=['x']))
+                fin, fout = os.fdopen(r1, "rb"), os.fdopen(w2, "wb")
+                while True:
+                    hdr = fin.read(4)
+                    if len(hdr) < 4:
+                        break
+                    func, point, kw = pickle.loads(fin.read(struct.unpack("<I", hdr)[0]))
+                    try:
+                        res = ("ok", getattr(mod, func)(point, **kw))
+                    except Exception:
+                        res = ("err", traceback.format_exc()[-600:])
+                    blob = pickle.dumps(res)
+                    fout.write(struct.pack("<I", len(blob)) + blob)
+                    fout.flush()
+            except BaseException:
+                traceback.print_exc()
+            finally:
+                os._exit(0)
+        os.close(r1)
+        os.close(w2)
+        self.pid = pid
+        self.fout, self.fin = os.fdopen(w1, "wb"), os.fdopen(r2, "rb")
+
+    def call(self, func, point, kw):
+        blob = pickle.dumps((func, point, kw))
+        self.fout.write(struct.pack("<I", len(blob)) + blob)
+        self.fout.flush()
+        hdr = self.fin.read(4)
+        if len(hdr) < 4:
+            return ("err", "replay server died")
+        return pickle.loads(self.fin.read(struct.unpack("<I", hdr)[0]))
+
+    def close(self):
+        try:
+            self.fout.close()
+            self.fin.close()
+            os.waitpid(self.pid, 0)
+        except Exception:
+            pass
+
+
+def claim_key(pid_, key):
+    """True for exactly one case of this run per (property, key): only that case registers the violation (the
+    framework re-runs every registered violation in a new interpreter, one after the other)."""
+    d = os.path.join("/tmp", "symx_keys_%s_%d" % (pid_, os.getppid()))
+    os.makedirs(d, exist_ok=True)
+    try:
+        fd = os.open(os.path.join(d, hashlib.sha1(key.encode()).hexdigest()[:16]), os.O_CREAT | os.O_EXCL | os.O_WRONLY)
+        os.write(fd, key.encode())
+        os.close(fd)
+        return True
+    except FileExistsError:
+        return False
+
+
+def release_keys(pid_):
+    import shutil
+
+    shutil.rmtree(os.path.join("/tmp", "symx_keys_%s_%d" % (pid_, os.getpid())), ignore_errors=True)
+
+
+def decide(log, server, modname, pid_, verdict, key, replay, candidates=({},)):
+    """Replacement of CaseLog.decide for the card harnesses (see ReplayServer / claim_key)."""
+    from symx import harness as H
+
+    if verdict.holds:
+        log.ok(verdict)
+        return True
+    rec = {"case": log.case, "what": verdict.what, "status": verdict.status, "time_s": round(verdict.time, 4), "residual_terms": verdict.nterms}
+    log.obligations.append(rec)
+    if any(vi["key"] == key for vi in log.violations) or key in getattr(log, "_dup_keys", ()):
+        rec["note"] = "same key as an already replayed counterexample"
+        return False
+    func, kw = replay[1], (replay[2] if len(replay) > 2 else {})
+    pts = ([dict(verdict.model)] if verdict.model else []) + [dict(c) for c in candidates]
+    for p in pts:
+        st, res = server.call(func, p, kw)
+        if st == "err":
+            log.notes.append("replay error for %s: %s" % (key, res))
+            continue
+        if res:
+            if claim_key(pid_, key):
+                log.violations.append({"key": key, "what": verdict.what, "case": log.case, "detail": str(res)[-600:],
+                                       "point": {k: str(v) for k, v in p.items()}, "script": H.replay_script(modname, func, p, **kw)})
+            else:
+                if not hasattr(log, "_dup_keys"):
+                    log._dup_keys = set()
+                log._dup_keys.add(key)
+                rec["note"] = "counterexample reproduced; violation registered by another case under the same key"
+            return False
+    log.inconclusive.append("%s/%s: solver answered %s and no candidate reproduced against the real code" % (log.case, verdict.what, verdict.status))
+    return False
